@@ -809,6 +809,31 @@ def discr_source(body, bb):
     return None
 
 
+def variant_arms(prog, body):
+    """[(switch block, canonical name of the tested place, {variant name: target block}, otherwise target)] for every discriminant switch"""
+    from table import canon_place
+    out = []
+    for s in sorted(body.reachable()):
+        t = body.blocks[s]["term"]
+        if t["k"] != "switch" or t["discr"]["k"] not in ("copy", "move"):
+            continue
+        d = t["discr"]["place"]["l"]
+        drv = None
+        for st in body.blocks[s]["stmts"]:
+            if st["k"] == "assign" and st["dst"]["l"] == d and not st["dst"]["p"] and st["rv"]["k"] == "discr":
+                drv = st["rv"]
+        if drv is None:
+            continue
+        adt = norm(drv.get("adt", ""))
+        arms = {prog.variant_of(adt, v): tgt for v, tgt in t["targets"]}
+        info = prog.adts.get(adt)
+        rest = [x["name"] for x in info["variants"] if x["name"] not in arms] if info else []
+        if len(rest) == 1:
+            arms[rest[0]] = t["otherwise"]
+        out.append((s, canon_place(body, drv["place"], {}), arms, t["otherwise"]))
+    return out
+
+
 def dominating_variant_facts(prog, body, bb):
     """[(canonical place, 'is'|'not', variants)] established by discriminant-switch edges dominating bb."""
     from table import canon_place
